@@ -11,6 +11,11 @@ such configuration, so a case carries a list of CONFIGURATION EVENTS (the alphab
     ["root_level", l]     logging.getLogger().setLevel(l)
     ["disable", l]        logging.disable(l)
     ["env", name, value]  os.environ[name] = value   (value None: unset)
+    ["tz", zone]          os.environ["TZ"] = zone; time.tzset()   (zone None: unset -- the system zone)
+
+The TIME ZONE of the process is configuration of the same kind: nothing a table stores or a query answers may depend on it
+(timestamp columns hold naive datetimes), yet datetime.fromtimestamp / time.localtime / mktime read it.  `TZ_CHOICES` are
+POSIX TZ strings (they need no tzdata); `timezone(zone)` is the context manager for one zone.
 
 `applied(events)` establishes the library's own defaults (nothing disabled, library logger at its default level, module
 loggers NOTSET, root WARNING, listed environment variables as the harness found them), applies the events in order, and
@@ -24,6 +29,7 @@ import contextlib
 import logging
 import os
 import random
+import time
 from typing import Any, Dict, Iterator, List, Optional, Sequence, Tuple
 
 LIB = "datashard"
@@ -33,6 +39,37 @@ ENV_CHOICES: Dict[str, List[Optional[str]]] = {
     "DATASHARD_VERIFY_CHECKSUMS": [None, "false", "true", "0"],
     "DATASHARD_S3_USE_CONDITIONAL_WRITES": [None, "false", "true"],
 }
+
+#: POSIX TZ strings: UTC, zones west and east of it, with and without daylight saving, whole / half-hour / beyond-12h offsets
+TZ_CHOICES: List[Optional[str]] = ["UTC", "EST5EDT,M3.2.0,M11.1.0", "CET-1CEST,M3.5.0,M10.5.0/3", "IST-5:30", "PST8PDT,M3.2.0,M11.1.0",
+                                   "NZST-12NZDT,M9.5.0,M4.1.0/3", "<-11>11", "<+1345>-13:45"]
+
+
+def set_tz(zone: Optional[str]) -> None:
+    if zone is None:
+        os.environ.pop("TZ", None)
+    else:
+        os.environ["TZ"] = str(zone)
+    time.tzset()
+
+
+@contextlib.contextmanager
+def timezone(zone: Optional[str], keep: bool = False) -> Iterator[None]:
+    """Run the body with the process in `zone` (keep=True: leave the process as it is); the previous TZ is restored."""
+    if keep:
+        yield
+        return
+    old = os.environ.get("TZ")
+    try:
+        set_tz(zone)
+        yield
+    finally:
+        set_tz(old)
+
+
+def draw_tz(rng: random.Random, non_utc: float = 0.5) -> Optional[str]:
+    return rng.choice(TZ_CHOICES[1:]) if rng.random() < non_utc else "UTC"
+
 
 #: named configurations every campaign covers (name -> events); "default" is the library as imported
 NAMED: Dict[str, List[List[Any]]] = {
@@ -117,6 +154,8 @@ def apply_event(ev: Sequence[Any]) -> None:
             os.environ.pop(ev[1], None)
         else:
             os.environ[ev[1]] = str(ev[2])
+    elif kind == "tz":
+        set_tz(ev[1])
     else:
         raise ValueError(f"unknown configuration event {ev!r}")
 
@@ -125,7 +164,7 @@ def snapshot() -> Dict[str, Any]:
     lib = _lib_logger()
     return {"disable": logging.root.manager.disable, "root": logging.getLogger().level, "lib": lib.level,
             "handlers": [(h, h.level) for h in lib.handlers], "mods": [(lg, lg.level) for lg in _module_loggers()],
-            "env": {k: os.environ.get(k) for k in ENV_CHOICES}}
+            "env": {k: os.environ.get(k) for k in ENV_CHOICES}, "tz": os.environ.get("TZ")}
 
 
 def restore(snap: Dict[str, Any]) -> None:
@@ -141,6 +180,8 @@ def restore(snap: Dict[str, Any]) -> None:
             os.environ.pop(k, None)
         else:
             os.environ[k] = v
+    if "tz" in snap and snap["tz"] != os.environ.get("TZ"):
+        set_tz(snap["tz"])
 
 
 def baseline() -> None:
